@@ -9,6 +9,7 @@
 -/
 import Gedcom.Model.Query
 import Gedcom.Lemmas.Query
+import Gedcom.Generated.QuerySrc
 namespace Gedcom.C16
 open Gedcom Gedcom.Q
 
@@ -425,6 +426,132 @@ theorem spouses_is_resolve (now : Nat) (docs : List Forest) (d : Nat) (n : Node)
       some (ofRes (Resolve.spouses resFlags (docs.getD d []) ⟨0, n⟩)
         (fun l => .slice "IndividualNodes" (.ptr "IndividualNode") false (l.map (entVal d "IndividualNode")))) := by
   rfl
+
+/-! ### the Go source, translated (harness/extract_querysrc.go, Model/QuerySrc.lean)
+
+  The decision structure of q/binary_expr.go and the index arithmetic of First / Last are read
+  from the source with go/ast on every run (`Generated.QuerySrc`), interpreted by the small
+  functions of Model/QuerySrc.lean, and proved equal to the hand-written model definitions the
+  theorems above are about — for all operands, all lists and all counts.  A source shape outside
+  the translated fragment is `.bad` and fails the `…_in_fragment` obligations. -/
+
+section Source
+open Gedcom.QuerySrc
+
+/-- every piece of binary_expr.go was recognised: the numeric condition, `ParseFloat(_, 64)`, the
+    normalisation functions, the body of every operator function, the `Operators` rows -/
+theorem ops_source_in_fragment : Generated.QuerySrc.ops.ok = true := by decide
+
+/-- the operator names of the composite literal are the ones reflection sees, in the same order -/
+theorem ops_table_is_reflected :
+    Generated.QuerySrc.ops.table.map (·.1) = Generated.Query.operators.map (·.1) := by decide
+
+/-- the statements of First / Last after `strconv.Atoi` were all recognised -/
+theorem slicing_source_in_fragment :
+    Generated.QuerySrc.firstStmts.all Stmt.ok = true ∧ Generated.QuerySrc.lastStmts.all Stmt.ok = true ∧
+    Generated.QuerySrc.firstCountVar ≠ "" ∧ Generated.QuerySrc.lastCountVar ≠ "" := by decide
+
+theorem applyNorm_lower_trim (s : Str) :
+    applyNorm ["ToLower", "TrimSpace"] s = if isAsciiStr s then some (trimSpace (toLowerAscii s)) else none := by
+  simp [applyNorm]
+
+theorem text_branch (l r : Str) :
+    textCmp ["ToLower", "TrimSpace"] ["ToLower", "TrimSpace"] l r =
+    (if !(isAsciiStr l && isAsciiStr r) then Cmp.undetermined
+     else Cmp.text (cmpStr (trimSpace (toLowerAscii l)) (trimSpace (toLowerAscii r)))) := by
+  unfold textCmp
+  rw [applyNorm_lower_trim, applyNorm_lower_trim]
+  cases isAsciiStr l <;> cases isAsciiStr r <;> simp
+
+/-- `srcCmp_is_model`.  "Numeric iff `binaryFloats`' condition (both ParseFloat calls succeed and
+    neither value is NaN), else `TrimSpace(ToLower(·))` text" — as translated from the source — is
+    the model's `compareOperands` at the regenerated NaN flag, for all operands. -/
+theorem srcCmp_is_model (l r : Str) :
+    srcCmp Generated.QuerySrc.ops l r = compareOperands Generated.Query.nanIsNumeric l r := by
+  have hflag : Generated.Query.nanIsNumeric = false := by decide
+  rw [hflag]
+  unfold srcCmp compareOperands
+  simp only [Generated.QuerySrc.ops, NumCond.eval]
+  rw [text_branch]
+  cases hl : parseNum l with
+  | none => simp [isNumericNum]
+  | some a =>
+    cases hr : parseNum r with
+    | none => simp [isNumericNum]
+    | some b => cases a <;> cases b <;> simp [isNumericNum, numericCmp, bothNumeric]
+
+theorem relop_is_truth_table (l r : Str) (op fn : String) (num text : RelOp)
+    (ht : Generated.QuerySrc.ops.table.lookup op = some fn)
+    (hf : Generated.QuerySrc.ops.fns.lookup fn = some (.numericElseText num text))
+    (hn : ∀ o, num.holds o = opTruth Generated.Query.opTruthNumeric op o)
+    (hx : ∀ o, text.holds o = opTruth Generated.Query.opTruthText op o) :
+    srcApply Generated.QuerySrc.ops op l r = applyOpStr Generated.Query.nanIsNumeric op l r := by
+  have hc := srcCmp_is_model l r
+  have hnu := never_unordered l r
+  unfold applyOpStr srcApply
+  rw [ht]
+  simp only [evalFn, hf]
+  rw [← hc] at hnu ⊢
+  cases hcmp : srcCmp Generated.QuerySrc.ops l r with
+  | numeric o => simp [hn]
+  | text o => simp [hx]
+  | unordered => exact absurd hcmp hnu
+  | undetermined => simp
+
+theorem operators_are_the_source (op : String) (hop : op ∈ ["=", "!=", "<", "<=", ">", ">="]) (l r : Str) :
+    srcApply Generated.QuerySrc.ops op l r = applyOpStr Generated.Query.nanIsNumeric op l r := by
+  simp only [List.mem_cons, List.mem_nil_iff, or_false] at hop
+  rcases hop with h | h | h | h | h | h <;> subst h
+  · exact relop_is_truth_table l r "=" "equal" .eq .eq rfl rfl (by intro o; cases o <;> decide) (by intro o; cases o <;> decide)
+  · -- `!=` is the negation of `equal` in the source
+    have heq := relop_is_truth_table l r "=" "equal" .eq .eq rfl rfl (by intro o; cases o <;> decide) (by intro o; cases o <;> decide)
+    have hneg : srcApply Generated.QuerySrc.ops "!=" l r = (srcApply Generated.QuerySrc.ops "=" l r).map (!·) := by
+      simp only [srcApply]
+      rfl
+    rw [hneg, heq, neq_is_not_eq]
+  · exact relop_is_truth_table l r "<" "lessThan" .lt .lt rfl rfl (by intro o; cases o <;> decide) (by intro o; cases o <;> decide)
+  · exact relop_is_truth_table l r "<=" "lessThanEqual" .le .le rfl rfl (by intro o; cases o <;> decide) (by intro o; cases o <;> decide)
+  · exact relop_is_truth_table l r ">" "greaterThan" .gt .gt rfl rfl (by intro o; cases o <;> decide) (by intro o; cases o <;> decide)
+  · exact relop_is_truth_table l r ">=" "greaterThanEqual" .ge .ge rfl rfl (by intro o; cases o <;> decide) (by intro o; cases o <;> decide)
+
+/-- `first_source_is_model`.  Running the translated statements of FirstExpr.Evaluate (clamp
+    `max >= len`, `in.Slice(0, max)`) and slicing with Go's bounds check is the model's `firstN`,
+    for every list and every count (negative ones included: the panic). -/
+theorem first_source_is_model (vs : List Val) (n : Int) :
+    sliceResult vs (run vs.length Generated.QuerySrc.firstStmts [(Generated.QuerySrc.firstCountVar, n)]) = firstN vs n := by
+  simp only [Generated.QuerySrc.firstStmts, Generated.QuerySrc.firstCountVar, run, IExp.eval, BExp.eval, List.lookup,
+    bind, Option.bind, pure]
+  unfold firstN sliceResult
+  by_cases h : n ≥ (vs.length : Int)
+  · simp [h]
+  · simp [h]
+    by_cases h0 : n < 0
+    · simp [h0]
+    · have h1 : ¬ ((vs.length : Int) < n) := by omega
+      simp [h0, h1]
+
+/-- `last_source_is_model`.  The same for LastExpr.Evaluate (`x == 0`, `start := l - x`, clamp
+    `start < 0`, `in.Slice(start, l)`) and `lastN`. -/
+theorem last_source_is_model (vs : List Val) (n : Int) :
+    sliceResult vs (run vs.length Generated.QuerySrc.lastStmts [(Generated.QuerySrc.lastCountVar, n)]) = lastN vs n := by
+  simp only [Generated.QuerySrc.lastStmts, Generated.QuerySrc.lastCountVar, run, IExp.eval, BExp.eval, List.lookup,
+    bind, Option.bind, pure]
+  unfold lastN sliceResult
+  by_cases h0 : n = 0
+  · subst h0; simp
+  · have hb : (n == 0) = false := by simpa using h0
+    simp [hb]
+    by_cases h : (vs.length : Int) - n < 0
+    · simp [h]
+    · simp [h]
+      by_cases h2 : (vs.length : Int) < (vs.length : Int) - n
+      · simp [h2]
+      · simp [h2]
+        apply List.take_of_length_le
+        simp only [List.length_drop]
+        omega
+
+end Source
 
 /-! ### determinism -/
 
